@@ -24,6 +24,15 @@ Ltac simp_getp :=
   repeat first [ rewrite getp_finish | rewrite getp_with_net | rewrite getp_upd_same | rewrite getp_updf_same
                | rewrite getp_upd_other | rewrite getp_updf_other ].
 
+Lemma done_upd s p m c : done (upd s p m c) = done s.
+Proof. destruct p; reflexivity. Qed.
+Lemma done_updf s p m c : done (upd_full s p m c) = done s.
+Proof. destruct p; reflexivity. Qed.
+Lemma done_with_net s n : done (with_net s n) = done s.
+Proof. reflexivity. Qed.
+Lemma done_finish s p st r : done (finish s p st r) = (p, st, r) :: done s.
+Proof. reflexivity. Qed.
+
 (* a step of one party leaves the other party's record alone *)
 Lemma lstep_other s l s' :
   lstep s l = Some s' -> getp s' (other (label_party l)) = getp s (other (label_party l)).
@@ -78,9 +87,7 @@ Proof.
       try match goal with |- context [on_out (two_party_ok ?a ?b ?c ?d) _ _] => destruct (two_party_ok a b c d) end; cbn [ctl on_out in_prop];
       try (intros []); try (intros ->);
       try (elim (NS _ eq_refl));
-      match goal with
-      | C : ctl (getp s p) = _ |- _ => rewrite C; cbn [in_prop]; split; [reflexivity|cur_same]
-      end.
+      (split; [reflexivity|cur_same]).
   - (* a step of the peer *)
     pose proof (lstep_other s l s' H) as O. rewrite <- E in O. rewrite O. auto.
 Qed.
@@ -123,9 +130,7 @@ Proof.
       try match goal with |- context [on_out (two_party_ok ?a ?b ?c ?d) _ _] => destruct (two_party_ok a b c d) end; cbn [ctl on_out in_respq mc];
       try (intros []); try (intros ->);
       try (elim NS; reflexivity);
-      match goal with
-      | C : ctl (getp s q) = _ |- _ => rewrite C; cbn [in_respq]; split; reflexivity
-      end.
+      (split; reflexivity).
   - pose proof (lstep_other s l s' H) as O. rewrite <- E in O. rewrite O. auto.
 Qed.
 
@@ -150,4 +155,177 @@ Proof.
     destruct (IH s1 s' q st R NS1 I) as [I1 C1].
     destruct (resp_session_step s l s1 q st E NS2 I1) as [I0 C0].
     split; [exact I0|congruence].
+Qed.
+
+Section Channel.
+  Variable P : mparams.
+  Variables k0 k1 : N.
+  Hypothesis HP : mp_parts P = [k0; k1].
+
+  Notation sigof := (sigof k0 k1).
+  Notation sig_ok := (sig_ok k0 k1).
+  Notation mkm := (mkm P).
+  Notation fs2 := (fs2 k0 k1).
+  Notation GI := (GI P k0 k1).
+  Notation LIc := (LIc P k0 k1).
+  Notation reachable := (reachable P).
+  Notation good_init := (good_init k0 k1).
+
+  (* the transaction a party holds after enabling st *)
+  Definition holds (s : sys) (p : pid) (st : state) : Prop :=
+    exists c, current (mc (getp s p)) = Some c /\ tx_st c = st /\ fully_signed (mc (getp s p)) c.
+
+  Lemma holds_of_LI s p st :
+    GI s -> cur_state s p = Some st -> holds s p st.
+  Proof.
+    intros G Cs. destruct (gi_li _ _ _ s G p) as (c & F & _ & _ & L).
+    pose proof (LIc_current P k0 k1 p _ c L) as Cur. unfold cur_state in Cs. rewrite Cur in Cs. injection Cs as Cs.
+    exists c. split; [exact Cur|]. split; [exact Cs|].
+    destruct (LIc_shape P k0 k1 p _ c L) as (f & stg & ->). apply (fs2_fully_signed P k0 k1 HP). exact F.
+  Qed.
+
+  (* ---------- success ---------- *)
+  Theorem success_GI s p st s' :
+    GI s -> ctl (getp s p) = PAdded st -> lstep s (LPEnable p) = Some s' ->
+    done s' = (p, st, RSuccess) :: done s /\ ctl (getp s' p) = Idle /\ holds s' p st /\
+    (holds s' (other p) st \/
+     (ctl (getp s' (other p)) = RSent st /\
+      exists s'', lstep s' (LREnable (other p)) = Some s'' /\ ctl (getp s'' (other p)) = Idle
+                  /\ holds s'' (other p) st /\ getp s'' p = getp s' p)).
+  Proof.
+    intros G C H. pose proof (GI_step P k0 k1 HP s _ s' G H) as G'.
+    destruct (gi_li _ _ _ s G p) as (c & F & V & Hin & L). unfold UpdateP.LIc in L. rewrite C in L.
+    destruct L as (g & M & SU & E & SO & Hst).
+    pose proof (gi_dir _ _ _ s G p) as D. unfold Dir in D. rewrite C in D. destruct D as [_ CM].
+    unfold lstep in H. cbn [label_party] in H. rewrite C, M in H. rewrite (op_enable P) in H. injection H as <-.
+    split; [rewrite done_finish, done_upd; reflexivity|]. rewrite !getp_finish, getp_upd_same, getp_upd_other. cbn [ctl].
+    split; [reflexivity|]. split.
+    - apply (holds_of_LI _ p st G'). unfold cur_state. rewrite getp_finish, getp_upd_same. reflexivity.
+    - destruct CM as [_ [CQ|[_ CQ]]].
+      + right. split; [exact CQ|].
+        set (s1 := finish _ _ _ _) in *.
+        assert (CQ1 : ctl (getp s1 (other p)) = RSent st)
+          by (unfold s1; rewrite getp_finish, getp_upd_other; exact CQ).
+        destruct (gi_li _ _ _ s1 G' (other p)) as (cq & Fq & Vq & Hinq & Lq). unfold UpdateP.LIc in Lq.
+        rewrite CQ1 in Lq. destruct Lq as (gq & Mq & SUq & SOq & Hstq).
+        destruct (lstep s1 (LREnable (other p))) as [s2|] eqn:H2.
+        * exists s2. split; [reflexivity|].
+          pose proof (GI_step P k0 k1 HP s1 _ s2 G' H2) as G2.
+          pose proof (lstep_other s1 _ s2 H2) as O. cbn [label_party] in O. rewrite other_other in O.
+          unfold lstep in H2. cbn [label_party] in H2. rewrite CQ1, Mq in H2. rewrite (op_enable P) in H2.
+          injection H2 as <-. rewrite getp_upd_same. cbn [ctl on_out].
+          split; [reflexivity|]. split; [|rewrite O; unfold s1; rewrite getp_finish, getp_upd_same; reflexivity].
+          apply (holds_of_LI _ (other p) st G2). unfold cur_state. rewrite getp_upd_same. reflexivity.
+        * exfalso. unfold lstep in H2. cbn [label_party] in H2. rewrite CQ1 in H2.
+          destruct (step _ _); discriminate H2.
+      + left. apply (holds_of_LI _ (other p) st G').
+        unfold cur_state. rewrite getp_finish, getp_upd_other. exact CQ.
+  Qed.
+
+  (* Channel.Update returns nil only through this step *)
+  Lemma success_only_enable s l s' p st :
+    GI s -> lstep s l = Some s' -> done s' = (p, st, RSuccess) :: done s ->
+    l = LPEnable p /\ ctl (getp s p) = PAdded st.
+  Proof.
+    intros G H D.
+    assert (NE : forall (A : Type) (x : A) (l0 : list A), l0 <> x :: l0).
+    { intros A x l0 X. apply (f_equal (@length _)) in X. cbn in X. lia. }
+    destruct l; step_inv H;
+      rewrite ?done_finish, ?done_with_net, ?done_upd, ?done_updf in D;
+      try (elim (NE _ _ _ D));
+      try (injection D as <- <-; split; [reflexivity|assumption]);
+      try (injection D as _ _ X; discriminate X).
+    exfalso. injection D as -> -> ->.
+    destruct (gi_li _ _ _ s G p) as (c & _ & _ & _ & L). unfold UpdateP.LIc in L.
+    match goal with C : ctl (getp s p) = PFail _ _ |- _ => rewrite C in L end.
+    destruct L as [L _]. elim L; reflexivity.
+  Qed.
+
+  (* ---------- rejection ---------- *)
+  Theorem reject_proposer_GI s0 p st s1 ls s2 s3 :
+    GI s0 -> lstep s0 (LStage p st) = Some s1 -> lrun s1 ls = Some s2 -> no_stage p ls ->
+    ctl (getp s2 p) = PFail st RRejected -> lstep s2 (LDiscard p) = Some s3 ->
+    done s3 = (p, st, RRejected) :: done s2 /\
+    current (mc (getp s3 p)) = current (mc (getp s0 p)) /\
+    ctl (getp s3 p) = Idle /\ ph (mc (getp s3 p)) = Acting /\ staging (mc (getp s3 p)) = None.
+  Proof.
+    intros G0 H0 R NS C2 H3.
+    pose proof (GI_step P k0 k1 HP s0 _ s1 G0 H0) as G1.
+    pose proof (GI_run P k0 k1 HP s1 ls s2 G1 R) as G2.
+    destruct (prop_session_run ls s1 s2 p st R NS) as [_ C12]; [rewrite C2; reflexivity|].
+    assert (C01 : current (mc (getp s1 p)) = current (mc (getp s0 p))).
+    { step_inv H0. simp_getp. cbn [mc]. eapply stage_out_cur. eassumption. }
+    destruct (gi_li _ _ _ s2 G2 p) as (c & _ & _ & _ & L). unfold UpdateP.LIc in L. rewrite C2 in L.
+    destruct L as (_ & o1 & M & _).
+    unfold lstep in H3. cbn [label_party] in H3. rewrite C2, M in H3. rewrite op_discard in H3.
+    injection H3 as <-. rewrite done_finish, done_upd, getp_finish, getp_upd_same. cbn [mc ctl fst mkm ph staging current].
+    split; [reflexivity|]. split; [|auto].
+    rewrite <- C01, <- C12, M. reflexivity.
+  Qed.
+
+  Lemma reject_acting s q st :
+    GI s -> ctl (getp s q) = RReject st ->
+    ph (mc (getp s q)) = Acting /\ staging (mc (getp s q)) = None.
+  Proof.
+    intros G C.
+    destruct (resp_handling P k0 k1 s q G) as (st0 & CY & DY & HY); [rewrite C; reflexivity|].
+    destruct (gi_li _ _ _ s G q) as (c & _ & _ & _ & L). unfold UpdateP.LIc in L. rewrite C in L.
+    destruct (gi_li _ _ _ s G (other q)) as (cY & _ & _ & _ & LY). unfold UpdateP.LIc in LY. rewrite CY in LY.
+    destruct LY as (MY & [VTY _] & _).
+    pose proof (sync_sym s q (gi_sync _ _ _ s G)) as Sy. unfold eff in Sy. rewrite C, CY, DY in Sy.
+    cbn [has_acc existsb] in Sy. unfold cur_state in Sy. rewrite MY in Sy. cbn [UpdateLocalP.mkm current option_map] in Sy.
+    pose proof (vtc_ok_succ P cY st0 _ VTY) as [FinY _].
+    destruct L as [[M Fin]|[M Fin]]; rewrite M in Sy |- *; cbn [UpdateLocalP.mkm current option_map ph staging] in Sy |- *.
+    - auto.
+    - exfalso. injection Sy as Sy. rewrite Sy in Fin. congruence.
+  Qed.
+
+  Theorem reject_responder_GI s0 q st s1 ls s2 s3 :
+    GI s0 -> lstep s0 (LDeliver q) = Some s1 -> lrun s1 ls = Some s2 -> no_deliver q ls ->
+    ctl (getp s2 q) = RReject st -> lstep s2 (LRSendRej q) = Some s3 ->
+    mc (getp s3 q) = mc (getp s0 q) /\ ctl (getp s3 q) = Idle /\
+    ph (mc (getp s3 q)) = Acting /\ staging (mc (getp s3 q)) = None.
+  Proof.
+    intros G0 H0 R NS C2 H3.
+    pose proof (GI_step P k0 k1 HP s0 _ s1 G0 H0) as G1.
+    pose proof (GI_run P k0 k1 HP s1 ls s2 G1 R) as G2.
+    destruct (resp_session_run ls s1 s2 q st R NS) as [_ C12]; [rewrite C2; reflexivity|].
+    assert (C01 : mc (getp s1 q) = mc (getp s0 q)).
+    { step_inv H0. simp_getp. reflexivity. }
+    destruct (reject_acting s2 q st G2 C2) as [PH SG].
+    unfold lstep in H3. cbn [label_party] in H3. rewrite C2 in H3. injection H3 as <-.
+    rewrite getp_with_net, getp_upd_same. cbn [mc ctl].
+    split; [congruence|]. auto.
+  Qed.
+End Channel.
+
+(* ---------- several channels: every component of a multi-channel run is a run of the one-channel LTS ---------- *)
+Lemma lrun_app s ls s1 l s2 : lrun s ls = Some s1 -> lstep s1 l = Some s2 -> lrun s (ls ++ [l]) = Some s2.
+Proof.
+  revert s; induction ls as [|x ls IH]; intros s R H; cbn in R |- *.
+  - injection R as ->. rewrite H. reflexivity.
+  - destruct (lstep s x) as [s'|]; [|discriminate R]. apply IH; assumption.
+Qed.
+Lemma mstep_components ms i l ms' :
+  mstep ms i l = Some ms' ->
+  Forall2 (fun s s' => s' = s \/ lstep s l = Some s') ms ms'.
+Proof.
+  revert i ms'; induction ms as [|s r IH]; intros i ms' H; cbn in H; [discriminate|].
+  destruct i as [|i].
+  - destruct (lstep s l) as [s'|] eqn:E; [|discriminate H]. injection H as <-.
+    constructor; [right; exact E|]. clear. induction r; constructor; auto.
+  - destruct (mstep r i l) as [r'|] eqn:E; [|discriminate H]. injection H as <-.
+    constructor; [left; reflexivity|]. apply (IH i r' E).
+Qed.
+Theorem mrun_components ls : forall ms ms',
+  mrun ms ls = Some ms' -> Forall2 (fun s s' => exists ls', lrun s ls' = Some s') ms ms'.
+Proof.
+  induction ls as [|[i l] ls IH]; intros ms ms' H; cbn in H.
+  - injection H as <-. induction ms; constructor; auto. exists []. reflexivity.
+  - destruct (mstep ms i l) as [ms1|] eqn:E; [|discriminate H].
+    pose proof (mstep_components ms i l ms1 E) as F1. pose proof (IH ms1 ms' H) as F2. clear E H IH.
+    revert ms' F2. induction F1 as [|s s1 r r1 H1 F1 IHF]; intros ms' F2; inversion F2; subst; constructor.
+    + match goal with H : exists _, lrun s1 _ = Some _ |- _ => destruct H as (ls' & R) end.
+      destruct H1 as [->|H1]; [exists ls'; exact R|]. exists (l :: ls'). cbn. rewrite H1. exact R.
+    + apply IHF. assumption.
 Qed.
